@@ -18,6 +18,9 @@ func (e *Engine) clock(st *State) *Term {
 func (e *Engine) tick(st *State) *Term {
 	tb := e.tb
 	old := e.clock(st)
+	if e.Cfg.ConcreteClock {
+		return old // time passes only through vrt.Advance, time.Sleep and timer expirations
+	}
 	st.NFresh++
 	c := tb.Var(64, "clk"+itoa(st.NFresh))
 	st.PC = tb.And(st.PC, tb.And(tb.SLe(old, c), tb.SLt(c, tb.Int64(1<<60))))
@@ -87,6 +90,9 @@ func (e *Engine) initTimeStubs() {
 		tt := e.namedType("time", "Timer")
 		id := e.allocCells(st, tt, e.zero(tt))
 		st.Timers = append(st.Timers, TimerRec{Obj: id, F: f, Armed: true, Deadline: tb.Add(e.clock(st), d)})
+		if !e.Cfg.ManualTimers {
+			st.Multi = true // timer callbacks run concurrently from now on: visible operations become scheduling points
+		}
 		if e.Cfg.Race {
 			e.hbTimerArm(st, th, id)
 		}
@@ -129,14 +135,25 @@ func (e *Engine) fireTimer(st *State, i int) {
 	tm := &st.Timers[i]
 	tm.Armed = false
 	tm.Fires++
-	c := e.tick(st)
-	st.PC = tb.And(st.PC, tb.SLe(tm.Deadline, c))
+	st.TotalFires++
+	var c *Term
+	if e.Cfg.ConcreteClock {
+		c = e.clock(st)
+		if c.IsConst() && tm.Deadline.IsConst() && c.Int() < tm.Deadline.Int() {
+			c = tm.Deadline
+		}
+		st.Clock = c
+	} else {
+		c = e.tick(st)
+		st.PC = tb.And(st.PC, tb.SLe(tm.Deadline, c))
+	}
 	var parent *Thread
 	if len(st.Threads) > 0 {
 		parent = nil
 	}
 	nt := e.spawn(st, parent, tm.F, nil, "timer", false)
 	nt.IsTimer = true
+	nt.FireNo = st.TotalFires
 	if e.Cfg.Race {
 		e.hbTimerFire(st, nt, tm.Obj)
 	}
